@@ -148,6 +148,7 @@ def main(argv=None):
     ap.add_argument("--jobs", type=int, default=int(os.environ.get("VERIF_JOBS", "16")))
     ap.add_argument("--only", default=None, help="substring filter on case names (debugging)")
     ap.add_argument("--replay", default=None, help="replay file: re-run one recorded counterexample concretely")
+    ap.add_argument("--save-witnesses", action="store_true", help="maintenance: store this run's path models as witnesses/<ID>.json (run on the pinned tree only)")
     a = ap.parse_args(argv)
     pid = a.property.upper()
     tier = a.tier
@@ -202,6 +203,17 @@ def main(argv=None):
         for v in st["violations"]:
             if v.get("values") is not None:
                 jobs.append({"case": name, "values": v["values"], "role": "violation", "label": v["label"]})
+    # stored witnesses: solver models of the paths explored on the pinned tree; replayed concretely on every run so that a
+    # changed tree which defeats the symbolic run (Unsupported / timeout) is still confronted with the solver-derived inputs
+    wpath = os.path.join(VERIF, "witnesses", "%s.json" % pid)
+    n_wit = 0
+    if os.path.exists(wpath) and not a.save_witnesses:
+        names = set(c["name"] for c in cs)
+        for name, vals in json.load(open(wpath)).get(tier, {}).items():
+            if name in names:
+                for v in vals:
+                    jobs.append({"case": name, "values": v, "role": "witness"})
+                    n_wit += 1
     replayed = []
     if jobs:
         nr = max(1, min(a.jobs, (len(jobs) + 7) // 8))
@@ -253,6 +265,11 @@ def main(argv=None):
     for r in spurious:
         harness_errors.append("SPURIOUS counterexample (does not reproduce on the real code): case=%s label=%s values=%s"
                               % (r["case"], r.get("label"), json.dumps(r["values"])[:300]))
+    if a.save_witnesses:
+        os.makedirs(os.path.join(VERIF, "witnesses"), exist_ok=True)
+        old = json.load(open(wpath)) if os.path.exists(wpath) else {}
+        old[tier] = {name: [s_["values"] for s_ in st["samples"]] for name, st in sorted(results.items()) if st["samples"]}
+        json.dump(old, open(wpath, "w"), indent=0, sort_keys=True)
     known_active = {e["key"]: e for e in known if e.get("status", "known") == "known"}
     violations = []
     known_hits = []
@@ -299,7 +316,8 @@ def main(argv=None):
                     "path reached the harness' obligations (at least one obligation checked on it)",
             "samples": samples[:40],
             "states": n_paths, "transitions": sum(st.get("max_decisions", 0) for st in results.values()) + tot("queries"),
-            "traces_validated_against_impl": sum(1 for r in replayed if r["role"] == "sample" and not r.get("error")),
+            "traces_validated_against_impl": sum(1 for r in replayed if r["role"] in ("sample", "witness") and not r.get("error")),
+            "stored_witnesses_replayed": n_wit,
             "obligations": tot("obligations"), "discharged": tot("discharged"),
             "exhaustive": all(st.get("complete") for st in results.values()) and not inconclusive,
             "cases": {name: {k: st.get(k) for k in ("paths", "infeasible", "obligations", "discharged", "queries", "solver_s", "wall_s", "complete", "n_samples")}
